@@ -240,6 +240,10 @@ MODES = ["parser", "options", "command", "command_named", "options_version", "op
 def emit_struct(i, fields, mode, tuple_struct=False):
     it = Item()
     ty = "T%d" % i
+    # the implied command name is the kebab-cased type name: use a two-word type name there
+    if mode in ("command", "command_doc3", "command_doc_indented"):
+        ty = "CmdT%d" % i
+    cmdname = kebab(ty)
     top_attr = []
     top_doc = ""
     manual_tail = ""
@@ -252,7 +256,7 @@ def emit_struct(i, fields, mode, tuple_struct=False):
     elif mode == "command":
         top_attr = ["command"]
         wrap = "command"
-        manual_tail = '.to_options().command("t%d")' % i
+        manual_tail = '.to_options().command(%s)' % rs_str(cmdname)
     elif mode == "command_named":
         top_attr = ['command("renamed")', "short('r')"]
         wrap = "command"
@@ -287,7 +291,7 @@ def emit_struct(i, fields, mode, tuple_struct=False):
         top_attr = ["command"]
         wrap = "command"
         top_doc = "command description\n\n\ncommand header\n\n\ncommand footer"
-        manual_tail = '.to_options().descr("command description").header("command header").footer("command footer").command("t%d")' % i
+        manual_tail = '.to_options().descr("command description").header("command header").footer("command footer").command(%s)' % rs_str(cmdname)
     elif mode == "options_doc_indented":
         # blocks whose first line is indented (a usage or example line) keep the indentation
         top_attr = ["options"]
@@ -298,7 +302,7 @@ def emit_struct(i, fields, mode, tuple_struct=False):
         top_attr = ["command"]
         wrap = "command"
         top_doc = "command description\n\n\n  run [--fast]\nnothing else"
-        manual_tail = '.to_options().descr("command description").header("  run [--fast]\\nnothing else").command("t%d")' % i
+        manual_tail = '.to_options().descr("command description").header("  run [--fast]\\nnothing else").command(%s)' % rs_str(cmdname)
     elif mode == "parser_doc":
         top_doc = "group title"
         manual_tail = '.group_help("group title")'
@@ -331,13 +335,13 @@ def emit_struct(i, fields, mode, tuple_struct=False):
     it.manual_src = man
     it.kind = wrap
     it.descr = "%s %s [%s]" % ("tuple struct" if tuple_struct else "struct", mode, "; ".join((f.ident or "_") + ": " + f.ty + " " + f.attr().strip().replace("\n", " ") for f in fields))
-    it.alphabet = alphabet_for(fields, mode, i)
+    it.alphabet = alphabet_for(fields, mode, i, cmdname)
     if wrap == "command":
-        name = "renamed" if mode == "command_named" else "t%d" % i
+        name = "renamed" if mode == "command_named" else kebab(ty)
         it.paths = [[], [name]]
     items.append(it)
 
-def alphabet_for(fields, mode, i):
+def alphabet_for(fields, mode, i, cmdname=None):
     a = ["v", "7", "11", "--zz", "--"]
     for f in fields:
         m = f.manual()
@@ -351,7 +355,7 @@ def alphabet_for(fields, mode, i):
                 a.append("--%s=7" % l)
                 a.append("--%s=x" % l)
     if mode in ("command", "command_doc3", "command_doc_indented"):
-        a.append("t%d" % i)
+        a.append(cmdname or ("t%d" % i))
     if mode == "command_named":
         a += ["renamed", "r"]
     seen = []
